@@ -32,18 +32,18 @@ import (
 func init() { register("C18", "model_checking", runC18) }
 
 type c18State struct {
-	dbs     *schemas.DB
-	ref     *rm.Schema
-	env     *e2e.Env
-	px      *e2e.Proxy
-	c       client.Client
-	pz      *e2e.Pauser
-	cookies []client.MonitorCookie
-	mu      sync.Mutex
+	dbs           *schemas.DB
+	ref           *rm.Schema
+	env           *e2e.Env
+	px            *e2e.Proxy
+	c             client.Client
+	pz            *e2e.Pauser
+	cookies       []client.MonitorCookie
+	mu            sync.Mutex
 	everConnected bool
 	used          map[string]bool // tables taken by monitors
-	n       int64
-	corrupt int32 // notifications still to corrupt
+	n             int64
+	corrupt       int32 // notifications still to corrupt
 }
 
 const c18CallTimeout = 1500 * time.Millisecond
